@@ -63,7 +63,7 @@ structure Machine where
 inductive Ans
   | ok | okAddr (a : Nat) (moved : Bool) | num (n : Nat) | id (k : Nat) | bytes (bs : List Byte)
   | okBytes (bs : List Byte) | okAddrBytes (a : Nat) (bs : List Byte)
-  | err (e : Err) | panic | dead | skipped | badOp
+  | err (e : Err) | errAddr (e : Err) (a : Nat) (moved : Bool) | panic | dead | skipped | badOp
 deriving Repr, Inhabited
 
 def Ans.ofOut : Out → Ans
@@ -184,6 +184,8 @@ def stepTop (m : Machine) (op : Op) (addrHint : Nat) : Machine × Ans :=
       match a.commit addrHint with
       | none => die m
       | some (a', .ok) => ({ m with front := .exec a' }, .okAddr a'.mem.addr (a'.mem.cap != a.mem.cap))
+      -- the adjustment pass of a growing commit failed: the error is reported after the buffer was moved and published
+      | some (a', .err (.impossible .managed)) => ({ m with front := .exec a' }, .errAddr (.impossible .managed) a'.mem.addr (a'.mem.cap != a.mem.cap))
       | some (a', o) => ({ m with front := .exec a' }, Ans.ofOut o)
   | .exec a, .fin =>
       -- `commit().expect(..)`: an error is a panic; then `Arc::try_unwrap` (no reader is kept by the harness)
